@@ -2,8 +2,11 @@ package main
 
 import (
 	"fmt"
+	"go/token"
 	"go/types"
 	"strings"
+
+	"golang.org/x/tools/go/ssa"
 )
 
 // c06R5: the mixing check can only reject what it is shown.  MakeTLSConfig compares the configs it is handed; the
@@ -242,4 +245,57 @@ func c06R6(h H) {
 		}
 	}
 	r.Check(bad == "", "R6", "caskettls.MakeTLSConfig/same-name-table", fn.Pos(), "sites answering one SNI name are checked against each other before one replaces the other", fmt.Sprintf("%d pairs evaluated", n), bad)
+}
+
+// c06R7: what one `tls` directive of a site sets, a later one that does not mention it leaves alone (a snippet with
+// `tls { protocols tls1.3 }` imported before the site's own `tls cert key` is the usual case).  In setupTLS every store
+// to the handshake settings the property names — the protocol range, the cipher list, the client-certificate policy —
+// is reached only through the comparison of the subdirective's name with the word that configures it; a store outside
+// (after the block, from per-directive locals) resets the setting with every further directive.
+func c06R7(h H) {
+	r := h.r
+	r.Rule("R7", "a later tls directive does not reset what an earlier one set: in caskettls.setupTLS every store to Config.ProtocolMinVersion/ProtocolMaxVersion, Ciphers, ClientAuth and ClientCerts is dominated by the comparison of the subdirective name with `protocols`, `ciphers` or `clients` respectively", 3)
+	fn := h.fn("R7", tlsPkg, "setupTLS")
+	if fn == nil {
+		return
+	}
+	word := map[string]string{"ProtocolMinVersion": "protocols", "ProtocolMaxVersion": "protocols", "Ciphers": "ciphers", "ClientAuth": "clients", "ClientCerts": "clients"}
+	count := map[string]int{}
+	for _, g := range withHelpers(fn, 1) {
+		if g != fn {
+			continue
+		}
+		allInstrs(g, func(in ssa.Instruction) {
+			st, ok := in.(*ssa.Store)
+			if !ok {
+				return
+			}
+			fa, ok := st.Addr.(*ssa.FieldAddr)
+			if !ok || !strings.HasSuffix(strings.TrimPrefix(fa.X.Type().String(), "*"), "caskettls.Config") {
+				return
+			}
+			f := fieldName(fa.X.Type(), fa.Field)
+			w, want := word[f]
+			if !want {
+				return
+			}
+			count[f]++
+			under := false
+			for _, gd := range dominatingGuards(g, nil, in) {
+				b, ok := gd.Cond.(*ssa.BinOp)
+				if !ok || b.Op != token.EQL || !gd.Pos {
+					continue
+				}
+				for _, op := range []ssa.Value{b.X, b.Y} {
+					if s, isC := constString(op); isC && s == w {
+						under = true
+					}
+				}
+			}
+			r.Check(under, "R7", sprintf("caskettls.setupTLS/store:%s#%d", f, count[f]), in.Pos(), "the setting is written only while the subdirective `"+w+"` is being handled")
+		})
+	}
+	if count["ProtocolMinVersion"] == 0 || count["Ciphers"] == 0 || count["ClientAuth"] == 0 {
+		r.Unresolve("R7", "setupTLS: stores to the protocol range / cipher list / client-certificate policy not found")
+	}
 }
